@@ -29,6 +29,7 @@ var (
 	c12pSrcSpec  = sim.RegStat("probe:c12-source-specific-membership-filtered")
 	c12pLeft     = sim.RegStat("probe:c12-datagram-after-leave-withheld")
 	c12pRebuf    = sim.RegStat("probe:c12-read-buffer-redesignated-while-pending")
+	c12pMoreSrc  = sim.RegStat("probe:c12-further-source-added-to-a-source-specific-membership")
 	c12pNested   = sim.RegStat("probe:c12-read-started-from-inside-a-read-completion")
 	c12pWrite    = sim.RegStat("probe:c12-write-observed-in-kernel")
 	c12pOpFail   = sim.RegStat("probe:c12-membership-call-failed-by-injection")
@@ -38,7 +39,8 @@ var (
 type c12Join struct {
 	group   [4]byte
 	ifix    int
-	source  [4]byte // zero: any source
+	source  [4]byte   // zero: any source
+	more    [][4]byte // further sources of a source-specific membership
 	blocked [][4]byte
 }
 
@@ -169,6 +171,19 @@ func (d *c12) checkGetters(s *c12Sock, where string) {
 
 // --- the abstract membership model
 
+// admits: does a source-specific membership list src?
+func (j *c12Join) admits(src [4]byte) bool {
+	if j.source == src {
+		return true
+	}
+	for _, m := range j.more {
+		if m == src {
+			return true
+		}
+	}
+	return false
+}
+
 func (s *c12Sock) findJoin(g [4]byte) int {
 	for i := range s.joins {
 		if s.joins[i].group == g {
@@ -190,7 +205,7 @@ func (d *c12) hostJoined(g, src [4]byte, ifix int) bool {
 				continue
 			}
 			if j.source != ([4]byte{}) {
-				if j.source == src {
+				if j.admits(src) {
 					return true
 				}
 				continue
@@ -233,7 +248,7 @@ func (d *c12) receives(s *c12Sock, src, dst [4]byte, port, ifix int) (bool, sim.
 			continue
 		}
 		if j.source != ([4]byte{}) {
-			if j.source == src {
+			if j.admits(src) {
 				return true, c12pMcastDel
 			}
 			return false, c12pSrcSpec
@@ -427,6 +442,20 @@ func (d *c12) membershipOp(s *c12Sock) {
 		}
 	case 2: // source-specific join
 		if ji >= 0 {
+			// a further source for a source-specific membership, on the interface that membership is on
+			j := &s.joins[ji]
+			if j.source == ([4]byte{}) || j.admits(src) {
+				break
+			}
+			w.Stat(c12pMoreSrc)
+			if j.ifix == 2 && w.Chance(1, 2) {
+				what = fmt.Sprintf("JoinSource(%s,%s) [further source]", ipStr(g), ipStr(src))
+				err = s.peer.JoinSource(multicast.IP(ipStr(g)), multicast.SourceIP(ipStr(src)))
+			} else {
+				what = fmt.Sprintf("JoinSourceOn(%s,%s,%s) [further source]", ipStr(g), ipStr(src), d.ifaceName(j.ifix))
+				err = s.peer.JoinSourceOn(multicast.IP(ipStr(g)), multicast.SourceIP(ipStr(src)), multicast.InterfaceName(d.ifaceName(j.ifix)))
+			}
+			apply = func() { s.joins[ji].more = append(s.joins[ji].more, src) }
 			break
 		}
 		if w.Chance(1, 2) {
@@ -444,7 +473,28 @@ func (d *c12) membershipOp(s *c12Sock) {
 			break
 		}
 		j := s.joins[ji]
-		if j.source != ([4]byte{}) {
+		if j.source != ([4]byte{}) && len(j.more) > 0 && w.Chance(2, 3) {
+			// one of several sources is left: the membership stays, with the others
+			k := w.Choose(len(j.more) + 1)
+			gone := j.source
+			if k > 0 {
+				gone = j.more[k-1]
+			}
+			what = fmt.Sprintf("LeaveSource(%s,%s) [others remain]", ipStr(g), ipStr(gone))
+			err = s.peer.LeaveSource(multicast.IP(ipStr(g)), multicast.SourceIP(ipStr(gone)))
+			apply = func() {
+				jj := &s.joins[ji]
+				var rest [][4]byte
+				for _, x := range append([][4]byte{jj.source}, jj.more...) {
+					if x != gone {
+						rest = append(rest, x)
+					}
+				}
+				jj.source, jj.more = rest[0], append([][4]byte(nil), rest[1:]...)
+			}
+			break
+		}
+		if j.source != ([4]byte{}) && len(j.more) == 0 {
 			what = fmt.Sprintf("LeaveSource(%s,%s)", ipStr(g), ipStr(j.source))
 			err = s.peer.LeaveSource(multicast.IP(ipStr(g)), multicast.SourceIP(ipStr(j.source)))
 		} else {
